@@ -957,9 +957,16 @@ extern "C" sighandler_t __wrap_signal(int sig, sighandler_t h) {
 
 // H1 hook target
 extern "C" void randomx_verif_yield(int site) {
-	if (!t_ctx || t_ctx->model_mode || t_in_seam) return;
-	InSeam g;
+	OpCtx *c = t_ctx;
+	if (!c || c->model_mode || t_in_seam) return;
+	if (!rt::sched_in_phase()) return;   // nothing to schedule outside a concurrent phase
+	// light-weight seam entry: these sites are passed millions of times (per Argon2 block, per interpreter iteration); the
+	// TSan ignore bracket (a stack-depot lookup per call) is taken by the scheduler only when it actually switches
+	if (t_step_on) tf_clear();
+	++t_in_seam;
 	seam_yield(site);
+	--t_in_seam;
+	if (t_step_on) tf_set();
 }
 
 // ------------------------------------------------------------------ global operator new/delete
